@@ -115,6 +115,12 @@ func TestC01(t *testing.T) {
 				}
 				ev.Case(nontriv, h, func() interface{} { return c })
 			})
+			// complete 8-bit ALU grid: immediate and accumulator-mode instructions x all A x all operands x carry x decimal
+			if rig.Shard() == 0 {
+				n := c01AluSweep(r)
+				ev.Bulk(n, n)
+				ev.ClassN("alu8-grid", n)
+			}
 			hit := 0
 			for _, n := range cells {
 				if n > 0 {
@@ -132,4 +138,57 @@ func TestC01(t *testing.T) {
 			}
 			ev.Assumption("the reference model (harness/wdc, written from the WDC datasheet and 'Programming the 65816') is correct; V after decimal arithmetic, A/N/Z/C after decimal arithmetic on non-BCD operands and results that depend on the bus-cycle order inside one instruction are not judged")
 		})
+}
+
+
+// c01AluSweep enumerates, for the 8-bit immediate / accumulator forms of the ALU instructions, every accumulator
+// value x every operand value x carry in x decimal flag (decimal only for ADC/SBC and only on BCD operands in
+// the quick tier: the model leaves non-BCD decimal results open), one instruction per case, on both interpreters.
+func c01AluSweep(r *rig.Run) int64 {
+	pri, alt := cpus()
+	type aluOp struct {
+		op      byte
+		operand bool // has an immediate operand byte
+		index   bool // operates on X/Y (flag x) rather than A (flag m)
+	}
+	ops := []aluOp{{0x69, true, false}, {0xE9, true, false}, {0x09, true, false}, {0x29, true, false}, {0x49, true, false}, {0xC9, true, false}, {0x89, true, false},
+		{0xE0, true, true}, {0xC0, true, true}, {0x0A, false, false}, {0x2A, false, false}, {0x4A, false, false}, {0x6A, false, false}, {0x1A, false, false}, {0x3A, false, false}}
+	var n int64
+	bcd := func(v int) bool { return v&0xf <= 9 && v>>4 <= 9 }
+	for _, o := range ops {
+		arith := o.op == 0x69 || o.op == 0xE9
+		for dflag := 0; dflag < 2; dflag++ {
+			if dflag == 1 && !arith {
+				continue
+			}
+			if !rig.Thorough() && !arith && o.op != 0xC9 && o.op != 0x89 {
+				continue // the quick tier keeps the arithmetic, compare and bit-test grids
+			}
+			for a := 0; a < 256; a++ {
+				dmax := 256
+				if !o.operand {
+					dmax = 1
+				}
+				for d := 0; d < dmax; d++ {
+					if dflag == 1 && !(bcd(a) && bcd(d)) {
+						continue
+					}
+					for carry := 0; carry < 2; carry++ {
+						p := byte(0x30) | byte(carry)
+						if dflag == 1 {
+							p |= wdc.FD
+						}
+						st := wdc.Arch{A: 0x5A00 | uint16(a), X: uint16(a), Y: uint16(a), S: 0x01F0, PC: 0x8000, K: 0x12, DBR: 0x34, P: p}
+						c := progCase{Init: st, MemSeed: 7, Steps: 1, Patches: []rig.Patch{{Addr: 0x128000, Val: o.op}, {Addr: 0x128001, Val: byte(d)}}}
+						n++
+						if err := runLockstep(&c, nil, []rig.CPU{pri, alt}, nil); err != nil {
+							r.Violation("alu8", c, err)
+							return n
+						}
+					}
+				}
+			}
+		}
+	}
+	return n
 }
